@@ -251,14 +251,41 @@ pub fn run(tier: Tier) -> i32 {
                 );
             }
         }
-        rep.eval((lists.len() + UNIVERSE.len()) as u64);
+        // the same lists as an Accept-Language header (entries joined with commas, as a browser sends them) through
+        // the request path: resolve_locale_with_options with an injected header - what the contexts start from
+        let mut n_header = 0u64;
+        if cfg.len() <= tier.pick(2, 3) || ci % tier.pick(7, 2) == 0 {
+            let chunk: Vec<&Vec<&str>> = lists.iter().filter(|l| !l.is_empty() && !l.iter().any(|e| e.is_empty())).collect();
+            for part in chunk.chunks(256) {
+                crate::rt::with_owner(|| {
+                    CONFIG.set(cfg);
+                    for l in part {
+                        let header = l.join(",");
+                        let h2 = header.clone();
+                        let opts = leptos_i18n::context::I18nContextOptions::<HL>::default()
+                            .enable_cookie(false)
+                            .ssr_lang_header_getter(leptos_i18n::context::UseLocalesOptions::default().ssr_lang_header_getter(move || Some(h2.clone())));
+                        let answer = leptos_i18n::locale::resolve_locale_with_options::<HL>(opts);
+                        n_header += 1;
+                        let v = judge(cfg, l, answer);
+                        if !v.ok {
+                            rep.violation(
+                                format!("C12/header: supported {:?} (default first) Accept-Language {header:?} -> {}: {}", cfg.iter().map(|l| l.as_str()).collect::<Vec<_>>(), answer, v.why),
+                                json!({"supported": cfg.iter().map(|l| l.as_str()).collect::<Vec<_>>(), "header": header, "answer": answer.as_str()}),
+                            );
+                        }
+                    }
+                });
+            }
+        }
+        rep.eval((lists.len() + UNIVERSE.len()) as u64 + n_header);
         rep.nontriv(nontrivial);
         outcomes.lock().unwrap().extend(local_out);
     });
     rep.sample(json!({"supported": ["de", "fr", "en-US", "fr-FR"], "requested": ["fr", "en-US"], "note": "default first"}));
     rep.sample(json!({"supported": configs[configs.len() / 2].iter().map(|l| l.as_str()).collect::<Vec<_>>(), "requested": lists[lists.len() - 7]}));
     let mut cov = serde_json::Map::new();
-    cov.insert("rule".into(), json!(format!("supported sets: every subset of size 1..4 of {UNIVERSE:?} with each member as default (thorough: both listing orders); request lists: every list of length 0..3 over the universe + {REQUEST_ONLY:?}; each pair through the real Locale::find_locale, each (set, langid) through find_matchs; oracle (relation): answer supported; it matches the first request any supported locale matches (exactly or as a less specific form); an exact match for that request wins; no match -> default; unparsable entries skipped; distinct_nontrivial counts pairs whose decisive request is not the only usable one")));
+    cov.insert("rule".into(), json!(format!("supported sets: every subset of size 1..4 of {UNIVERSE:?} with each member as default (thorough: both listing orders); request lists: every list of length 0..3 over the universe + {REQUEST_ONLY:?}; each pair through the real Locale::find_locale, each (set, langid) through find_matchs, and - for the sets of <= 2 (thorough 3) locales and every 7th (2nd) larger one - every non-empty list as an Accept-Language header through resolve_locale_with_options (the request path of the contexts); oracle (relation): answer supported; it matches the first request any supported locale matches (exactly or as a less specific form); an exact match for that request wins; no match -> default; unparsable entries skipped; distinct_nontrivial counts pairs whose decisive request is not the only usable one")));
     cov.insert("exhaustive".into(), json!(true));
     cov.insert("distinct_answers".into(), json!(outcomes.lock().unwrap().len()));
     rep.finish(cov, &["BCP-47 parsing is icu_locid's (trusted)", "the generated enum's side of the contract (get_all, as_langid) is C13's"])
